@@ -1,5 +1,6 @@
 import JunoModel.C04.ProofsBC
 import JunoModel.C04.ProofsBulk
+import JunoModel.C04.ProofsRefuse
 /-!
 C04 — reverting the head exactly undoes a block; forks converge.
 
@@ -241,11 +242,11 @@ lists) is registered by `Update` and survives the revert; with the repair it doe
 theorem implicit_class_survived_before_64c1acb :
     sameNode (thenRevert legacyCfg (fstoreAll legacyCfg Node.init
         [blk 0 10 0 Diff.empty,
-         { blk 1 11 10 { Diff.empty with deployed := [(0x105, 0xc5)] } with classes := [(0xc5, ⟨false, 0⟩)] }]))
+         { blk 1 11 10 { Diff.empty with deployed := [(0x105, 0xc5)] } with classes := [(0xc5, ⟨false, 0, true⟩)] }]))
       (fstoreAll legacyCfg Node.init [blk 0 10 0 Diff.empty]) = false ∧
     sameNode (thenRevert { legacyCfg with removeImplicitClasses := true } (fstoreAll legacyCfg Node.init
         [blk 0 10 0 Diff.empty,
-         { blk 1 11 10 { Diff.empty with deployed := [(0x105, 0xc5)] } with classes := [(0xc5, ⟨false, 0⟩)] }]))
+         { blk 1 11 10 { Diff.empty with deployed := [(0x105, 0xc5)] } with classes := [(0xc5, ⟨false, 0, true⟩)] }]))
       (fstoreAll legacyCfg Node.init [blk 0 10 0 Diff.empty]) = true := by
   decide
 
@@ -257,14 +258,14 @@ general theorems cover such blocks (no hypothesis excludes duplicates any more).
 theorem legacy_duplicate_declaration_failed_before_7460746 :
     failsWith (thenRevert { legacyCfg with legacyDedupDeclared := false } (fstoreAll legacyCfg Node.init
       [blk 0 10 0 Diff.empty,
-       { blk 1 11 10 { Diff.empty with declV0 := [0xd7, 0xd7] } with classes := [(0xd7, ⟨false, 0⟩)] }])) .classMissing = true ∧
+       { blk 1 11 10 { Diff.empty with declV0 := [0xd7, 0xd7] } with classes := [(0xd7, ⟨false, 0, true⟩)] }])) .classMissing = true ∧
     sameNode (thenRevert newCfg (fstoreAll newCfg Node.init
       [blk 0 10 0 Diff.empty,
-       { blk 1 11 10 { Diff.empty with declV0 := [0xd7, 0xd7] } with classes := [(0xd7, ⟨false, 0⟩)] }]))
+       { blk 1 11 10 { Diff.empty with declV0 := [0xd7, 0xd7] } with classes := [(0xd7, ⟨false, 0, true⟩)] }]))
       (fstoreAll newCfg Node.init [blk 0 10 0 Diff.empty]) = true ∧
     sameNode (thenRevert legacyCfg (fstoreAll legacyCfg Node.init
       [blk 0 10 0 Diff.empty,
-       { blk 1 11 10 { Diff.empty with declV0 := [0xd7, 0xd7] } with classes := [(0xd7, ⟨false, 0⟩)] }]))
+       { blk 1 11 10 { Diff.empty with declV0 := [0xd7, 0xd7] } with classes := [(0xd7, ⟨false, 0, true⟩)] }]))
       (fstoreAll legacyCfg Node.init [blk 0 10 0 Diff.empty]) = true := by
   decide
 
@@ -289,25 +290,25 @@ theorem fresh_l1_message_needed :
 the first declaration. Both backends. -/
 theorem sierra_redeclaration_needed :
     sameNode (thenRevert legacyCfg (fstoreAll legacyCfg Node.init
-        [{ blk 0 10 0 { Diff.empty with declV1 := [(0xd1, 0xe1)] } with classes := [(0xd1, ⟨true, 0xe2⟩)] },
-         { blk 1 11 10 { Diff.empty with declV1 := [(0xd1, 0xe1)] } with classes := [(0xd1, ⟨true, 0xe2⟩)] }]))
+        [{ blk 0 10 0 { Diff.empty with declV1 := [(0xd1, 0xe1)] } with classes := [(0xd1, ⟨true, 0xe2, true⟩)] },
+         { blk 1 11 10 { Diff.empty with declV1 := [(0xd1, 0xe1)] } with classes := [(0xd1, ⟨true, 0xe2, true⟩)] }]))
       (fstoreAll legacyCfg Node.init
-        [{ blk 0 10 0 { Diff.empty with declV1 := [(0xd1, 0xe1)] } with classes := [(0xd1, ⟨true, 0xe2⟩)] }]) = false ∧
+        [{ blk 0 10 0 { Diff.empty with declV1 := [(0xd1, 0xe1)] } with classes := [(0xd1, ⟨true, 0xe2, true⟩)] }]) = false ∧
     sameNode (thenRevert newCfg (fstoreAll newCfg Node.init
-        [{ blk 0 10 0 { Diff.empty with declV1 := [(0xd1, 0xe1)] } with classes := [(0xd1, ⟨true, 0xe2⟩)] },
-         { blk 1 11 10 { Diff.empty with declV1 := [(0xd1, 0xe1)] } with classes := [(0xd1, ⟨true, 0xe2⟩)] }]))
+        [{ blk 0 10 0 { Diff.empty with declV1 := [(0xd1, 0xe1)] } with classes := [(0xd1, ⟨true, 0xe2, true⟩)] },
+         { blk 1 11 10 { Diff.empty with declV1 := [(0xd1, 0xe1)] } with classes := [(0xd1, ⟨true, 0xe2, true⟩)] }]))
       (fstoreAll newCfg Node.init
-        [{ blk 0 10 0 { Diff.empty with declV1 := [(0xd1, 0xe1)] } with classes := [(0xd1, ⟨true, 0xe2⟩)] }]) = false := by
+        [{ blk 0 10 0 { Diff.empty with declV1 := [(0xd1, 0xe1)] } with classes := [(0xd1, ⟨true, 0xe2, true⟩)] }]) = false := by
   decide
 
 /-- `BlockOK.defsListed` is needed: a definition handed to `Store` that the diff neither declares nor
 deploys is registered and survives the revert (nothing in the state update names it). -/
 theorem unlisted_definition_needed :
     sameNode (thenRevert { legacyCfg with removeImplicitClasses := true } (fstoreAll legacyCfg Node.init
-        [blk 0 10 0 Diff.empty, { blk 1 11 10 Diff.empty with classes := [(0xc5, ⟨false, 0⟩)] }]))
+        [blk 0 10 0 Diff.empty, { blk 1 11 10 Diff.empty with classes := [(0xc5, ⟨false, 0, true⟩)] }]))
       (fstoreAll legacyCfg Node.init [blk 0 10 0 Diff.empty]) = false ∧
     sameNode (thenRevert { newCfg with removeImplicitClasses := true } (fstoreAll newCfg Node.init
-        [blk 0 10 0 Diff.empty, { blk 1 11 10 Diff.empty with classes := [(0xc5, ⟨false, 0⟩)] }]))
+        [blk 0 10 0 Diff.empty, { blk 1 11 10 Diff.empty with classes := [(0xc5, ⟨false, 0, true⟩)] }]))
       (fstoreAll newCfg Node.init [blk 0 10 0 Diff.empty]) = false := by
   decide
 
@@ -325,10 +326,10 @@ trie leaf changes, the CASM metadata is not touched because `Store` looks at the
 `RevertHead` fails when it tries to un-migrate metadata that was never migrated. Both backends. -/
 theorem early_migration_needed :
     failsWith (thenRevert legacyCfg (fstoreAll legacyCfg Node.init
-      [{ blk 0 10 0 { Diff.empty with declV1 := [(0xd1, 0xe1)] } with classes := [(0xd1, ⟨true, 0xe2⟩)] },
+      [{ blk 0 10 0 { Diff.empty with declV1 := [(0xd1, 0xe1)] } with classes := [(0xd1, ⟨true, 0xe2, true⟩)] },
        blk 1 11 10 { Diff.empty with migrated := [(0xd1, 0xe2)] }])) .casm = true ∧
     failsWith (thenRevert newCfg (fstoreAll newCfg Node.init
-      [{ blk 0 10 0 { Diff.empty with declV1 := [(0xd1, 0xe1)] } with classes := [(0xd1, ⟨true, 0xe2⟩)] },
+      [{ blk 0 10 0 { Diff.empty with declV1 := [(0xd1, 0xe1)] } with classes := [(0xd1, ⟨true, 0xe2, true⟩)] },
        blk 1 11 10 { Diff.empty with migrated := [(0xd1, 0xe2)] }])) .casm = true := by
   decide
 
@@ -355,7 +356,7 @@ the model stores it, and so all theorems above apply to the result (both backend
 def e0 : Block :=
   { blk 0 10 0 { Diff.empty with deployed := [(0x104, 0xc0)], storage := [((1, 7), 5), ((0x104, 1), 7)],
                                   declV0 := [0xc0], declV1 := [(0xd1, 0xe1)] } with
-    txs := [⟨0x77, some 0x99⟩], classes := [(0xc0, ⟨false, 0⟩), (0xd1, ⟨true, 0xe2⟩)] }
+    txs := [⟨0x77, some 0x99⟩], classes := [(0xc0, ⟨false, 0, true⟩), (0xd1, ⟨true, 0xe2, true⟩)] }
 def e1 : Block :=
   { blk 1 11 10 { Diff.empty with replaced := [(0x104, 0xd1)], nonces := [(0x104, 1)],
                                    storage := [((1, 7), 6), ((0x104, 1), 0)], migrated := [(0xd1, 0xe2)] } with
@@ -474,21 +475,21 @@ def blk2 (n h p : Nat) (d : Diff) : Block := { blk n h p d with ver := 2 }
 migration of a class declared with the V2 hash; the first migration is stored and reverted exactly. -/
 theorem second_migration_refused :
     failsWith (fstoreAll legacyCfg Node.init
-      [{ blk 0 10 0 { Diff.empty with declV1 := [(0xd1, 0xe1)] } with classes := [(0xd1, ⟨true, 0xe2⟩)] },
+      [{ blk 0 10 0 { Diff.empty with declV1 := [(0xd1, 0xe1)] } with classes := [(0xd1, ⟨true, 0xe2, true⟩)] },
        blk2 1 11 10 { Diff.empty with migrated := [(0xd1, 0xe2)] },
        blk2 2 12 11 { Diff.empty with migrated := [(0xd1, 0xe2)] }]) .casm = true ∧
     failsWith (fstoreAll newCfg Node.init
-      [{ blk 0 10 0 { Diff.empty with declV1 := [(0xd1, 0xe1)] } with classes := [(0xd1, ⟨true, 0xe2⟩)] },
+      [{ blk 0 10 0 { Diff.empty with declV1 := [(0xd1, 0xe1)] } with classes := [(0xd1, ⟨true, 0xe2, true⟩)] },
        blk2 1 11 10 { Diff.empty with migrated := [(0xd1, 0xe2)] },
        blk2 2 12 11 { Diff.empty with migrated := [(0xd1, 0xe2)] }]) .casm = true ∧
     failsWith (fstoreAll newCfg Node.init
-      [{ blk2 0 10 0 { Diff.empty with declV1 := [(0xd1, 0xe2)] } with classes := [(0xd1, ⟨true, 0xe2⟩)] },
+      [{ blk2 0 10 0 { Diff.empty with declV1 := [(0xd1, 0xe2)] } with classes := [(0xd1, ⟨true, 0xe2, true⟩)] },
        blk2 1 11 10 { Diff.empty with migrated := [(0xd1, 0xe2)] }]) .casm = true ∧
     sameNode (thenRevert newCfg (fstoreAll newCfg Node.init
-      [{ blk 0 10 0 { Diff.empty with declV1 := [(0xd1, 0xe1)] } with classes := [(0xd1, ⟨true, 0xe2⟩)] },
+      [{ blk 0 10 0 { Diff.empty with declV1 := [(0xd1, 0xe1)] } with classes := [(0xd1, ⟨true, 0xe2, true⟩)] },
        blk2 1 11 10 { Diff.empty with migrated := [(0xd1, 0xe2)] }]))
       (fstoreAll newCfg Node.init
-      [{ blk 0 10 0 { Diff.empty with declV1 := [(0xd1, 0xe1)] } with classes := [(0xd1, ⟨true, 0xe2⟩)] }]) = true := by
+      [{ blk 0 10 0 { Diff.empty with declV1 := [(0xd1, 0xe1)] } with classes := [(0xd1, ⟨true, 0xe2, true⟩)] }]) = true := by
   decide
 
 /-- Since fecbdb1 a Sierra declaration without its definition is refused from 0.14.1 on as well (before
@@ -562,6 +563,123 @@ example : (BC.run legacyCfg BC.init (cacheOps.take 6)).cache = [(0, [(0, 5), (2,
     (BC.run legacyCfg BC.init (cacheOps.take 8)).cache = [] ∧
     (match BC.query legacyCfg (BC.run legacyCfg BC.init (cacheOps.take 9)) 0 3 with
      | .ok r => r.1 | .error _ => []) = [(0, 5), (2, 7), (3, 6)] := by
+  decide
+
+/-! ### Round 6: what `Store` refuses — blocks that repeat what the chain already did
+
+`RevertHead` purges every address in `DeployedContracts` and un-migrates every class in `MigratedClasses`, whoever
+deployed / migrated them: it is the inverse of `Store` only because `Store` refuses a block that deploys an address
+that exists or migrates a class that is migrated. These are the refusals, for every node and block (both backends);
+the harness offers such blocks to the real node after every round of reverts (`repeat.go`). -/
+
+/-- What `State.Update` has checked about the contract sections of every block `Store` accepted: a deployed
+address did not exist; a replaced class, a nonce and a storage write name a contract that existed or is deployed
+by the same block (storage: or a system contract, which is created on first touch). -/
+theorem stored_contract_sections_guarded (cfg : Cfg) (nd nd' : Node) (b : Block)
+    (hs : Sorted nd.st.contracts) (hd : Sorted b.diff.deployed) (hr : Sorted b.diff.replaced) (hn : Sorted b.diff.nonces)
+    (h : store cfg nd b = .ok nd') :
+    (∀ a c, Map.get b.diff.deployed a = some c → Map.get nd.st.contracts a = none) ∧
+    (∀ a c, Map.get b.diff.replaced a = some c →
+      (Map.get nd.st.contracts a).isSome = true ∨ (Map.get b.diff.deployed a).isSome = true) ∧
+    (∀ a x, Map.get b.diff.nonces a = some x →
+      (Map.get nd.st.contracts a).isSome = true ∨ (Map.get b.diff.deployed a).isSome = true) ∧
+    (∀ a, a ∈ addrsOf b.diff.storage →
+      (Map.get nd.st.contracts a).isSome = true ∨ (Map.get b.diff.deployed a).isSome = true ∨ isSys a = true) :=
+  updateState_contract_guard hs hd hr hn (store_state_of_ok h)
+
+/-- A block that deploys an address that already holds a contract is refused — whatever class it names (the same
+class "again" included) and whatever else it contains. -/
+theorem repeated_deployment_refused (cfg : Cfg) (nd : Node) (b : Block)
+    (hs : Sorted nd.st.contracts) (hd : Sorted b.diff.deployed) (hr : Sorted b.diff.replaced) (hn : Sorted b.diff.nonces)
+    (a c : Nat) (ct : Contract) (hdep : Map.get b.diff.deployed a = some c) (hex : Map.get nd.st.contracts a = some ct) :
+    ∀ nd', store cfg nd b ≠ .ok nd' := by
+  intro nd' h
+  have := (stored_contract_sections_guarded cfg nd nd' b hs hd hr hn h).1 a c hdep
+  rw [hex] at this
+  cases this
+
+/-- A block (0.14.1 on) that lists an already migrated class in `MigratedClasses` again is refused. -/
+theorem repeated_migration_refused (cfg : Cfg) (nd : Node) (b : Block) (hv : b.ver ≥ 2)
+    (hs : Sorted nd.casm) (hsd : Sorted b.diff.declV1) (hsm : Sorted b.diff.migrated)
+    (c y : Nat) (md : CasmMeta) (hm : Map.get b.diff.migrated c = some y) (hmd : Map.get nd.casm c = some md)
+    (hmig : md.migratedAt ≠ 0) : ∀ nd', store cfg nd b ≠ .ok nd' := by
+  intro nd' h
+  obtain ⟨md', h1, h2, _⟩ := stored_migration_guarded cfg nd nd' b hv hs hsd hsm h c y hm
+  rw [hmd] at h1
+  cases h1
+  exact hmig h2
+
+/-- A nonce or a replaced class for an address that holds no contract (e.g. one whose deployment was just
+reverted) and is not deployed by the block is refused. -/
+theorem touch_of_absent_contract_refused (cfg : Cfg) (nd : Node) (b : Block)
+    (hs : Sorted nd.st.contracts) (hd : Sorted b.diff.deployed) (hr : Sorted b.diff.replaced) (hn : Sorted b.diff.nonces)
+    (a : Nat) (habs : Map.get nd.st.contracts a = none) (hnd : Map.get b.diff.deployed a = none)
+    (ht : (Map.get b.diff.nonces a).isSome = true ∨ (Map.get b.diff.replaced a).isSome = true) :
+    ∀ nd', store cfg nd b ≠ .ok nd' := by
+  intro nd' h
+  obtain ⟨_, g2, g3, _⟩ := stored_contract_sections_guarded cfg nd nd' b hs hd hr hn h
+  rcases ht with ht | ht
+  · cases hx : Map.get b.diff.nonces a with
+    | none => rw [hx] at ht; cases ht
+    | some x => rcases g3 a x hx with h' | h' <;> simp [habs, hnd] at h'
+  · cases hx : Map.get b.diff.replaced a with
+    | none => rw [hx] at ht; cases ht
+    | some x => rcases g2 a x hx with h' | h' <;> simp [habs, hnd] at h'
+
+/-- Per history: after ANY history of stores and reverts, offering a block that deploys an address the surviving
+chain has deployed, or (0.14.1 on) migrates a class the surviving chain has migrated, changes nothing — the node
+stays the node of the surviving chain (`history_equals_net_chain`). -/
+theorem repeat_offered_after_any_history_is_noop (cfg : Cfg) (hc : cfg.asFound) (ops : List Op)
+    (ok : HistOK cfg Node.init ops) (b : Block)
+    (hd : Sorted b.diff.deployed) (hr : Sorted b.diff.replaced) (hn : Sorted b.diff.nonces)
+    (hsd : Sorted b.diff.declV1) (hsm : Sorted b.diff.migrated)
+    (hrep : (∃ a c ct, Map.get b.diff.deployed a = some c ∧ Map.get (run cfg Node.init ops).st.contracts a = some ct) ∨
+            (b.ver ≥ 2 ∧ ∃ c y md, Map.get b.diff.migrated c = some y ∧ Map.get (run cfg Node.init ops).casm c = some md ∧
+              md.migratedAt ≠ 0)) :
+    run cfg Node.init (ops ++ [.store b]) = run cfg Node.init ops ∧
+    storeAll cfg Node.init (net cfg ops) = .ok (run cfg Node.init (ops ++ [.store b])) := by
+  have inv := (history_invariant cfg hc ops ok).2
+  have e : run cfg Node.init (ops ++ [.store b]) = run cfg Node.init ops := by
+    show List.foldl (step cfg) Node.init (ops ++ [.store b]) = _
+    rw [List.foldl_append]
+    apply step_store_refused
+    rcases hrep with ⟨a, c, ct, h1, h2⟩ | ⟨hv, c, y, md, h1, h2, h3⟩
+    · exact repeated_deployment_refused cfg _ b inv.state.sC hd hr hn a c ct h1 h2
+    · exact repeated_migration_refused cfg _ b hv inv.state.sCasm hsd hsm c y md h1 h2 h3
+  exact ⟨e, by rw [e]; exact history_equals_net_chain cfg hc ops ok⟩
+
+private theorem n2_good_legacy : Good legacyCfg n2_legacy :=
+  .store n1_good_legacy (storeOK_withRoots e1_storeOK_legacy) n2_stored_legacy
+
+/-- non-vacuity: on the node `n2_legacy` (contract 0x104 deployed by block 0, class 0xd1 migrated by block 1) the
+repeated deployment (with the class the contract has) and the repeated migration are refused by the theorems, and
+the model indeed answers `contractExists` / `casm` -/
+local macro "sorted_tac6" : tactic => `(tactic| simp [Sorted, blk, blk2, Diff.empty, KOrd.lt])
+
+example : ∀ nd', store legacyCfg n2_legacy (blk 2 12 11 { Diff.empty with deployed := [(0x104, 0xd1)] }) ≠ .ok nd' :=
+  repeated_deployment_refused legacyCfg n2_legacy _ (good_inv ⟨by decide, fun _ => ⟨rfl, rfl, rfl⟩⟩ n2_good_legacy).state.sC
+    (by sorted_tac6) (by sorted_tac6) (by sorted_tac6) 0x104 0xd1 ⟨1, 0xd1, 0⟩ (by decide) (by decide)
+example : ∀ nd', store legacyCfg n2_legacy (blk2 2 12 11 { Diff.empty with migrated := [(0xd1, 0xe2)] }) ≠ .ok nd' :=
+  repeated_migration_refused legacyCfg n2_legacy _ (by decide) (good_inv ⟨by decide, fun _ => ⟨rfl, rfl, rfl⟩⟩ n2_good_legacy).state.sCasm
+    (by sorted_tac6) (by sorted_tac6) 0xd1 0xe2 ⟨0, 0xe2, 1, some 0xe1⟩ (by decide) (by decide) (by decide)
+example : failsWith (fstore legacyCfg n2_legacy (blk 2 12 11 { Diff.empty with deployed := [(0x104, 0xd1)] })) .contractExists = true ∧
+    failsWith (fstore newCfg n2_new (blk 2 12 11 { Diff.empty with deployed := [(0x104, 0xd1)] })) .contractExists = true ∧
+    failsWith (fstore legacyCfg n2_legacy (blk2 2 12 11 { Diff.empty with migrated := [(0xd1, 0xe2)] })) .casm = true ∧
+    failsWith (fstore newCfg n2_new (blk2 2 12 11 { Diff.empty with migrated := [(0xd1, 0xe2)] })) .casm = true ∧
+    failsWith (fstore newCfg n2_new (blk 2 12 11 { Diff.empty with nonces := [(0x105, 1)] })) .contractMissing = true := by
+  decide
+
+/-- Since 302c657 a block below 0.14.1 that declares a Sierra class delivered without a usable compiled class (none, or
+a bytecode shorter than its segment lengths) is refused by `Store` on both backends (before: a panic inside the batch);
+with the compiled class the same block is stored and reverted exactly. -/
+theorem declaration_without_compiled_class_refused :
+    failsWith (fstoreAll legacyCfg Node.init
+      [{ blk 0 10 0 { Diff.empty with declV1 := [(0xd1, 0xe1)] } with classes := [(0xd1, ⟨true, 0, false⟩)] }]) .casm = true ∧
+    failsWith (fstoreAll newCfg Node.init
+      [{ blk 0 10 0 { Diff.empty with declV1 := [(0xd1, 0xe1)] } with classes := [(0xd1, ⟨true, 0, false⟩)] }]) .casm = true ∧
+    sameNode (thenRevert newCfg (fstoreAll newCfg Node.init
+      [blk 0 10 0 Diff.empty, { blk 1 11 10 { Diff.empty with declV1 := [(0xd1, 0xe1)] } with classes := [(0xd1, ⟨true, 0xe2, true⟩)] }]))
+      (fstoreAll newCfg Node.init [blk 0 10 0 Diff.empty]) = true := by
   decide
 
 end Juno.C04.Props
